@@ -15,9 +15,9 @@ pub fn short(name: &str) -> String {
 
 #[derive(Default)]
 struct Rec {
-    /// open frames: (name, index, height before)
-    open: Vec<(String, usize, i64)>,
-    /// completed steps in completion order: (name, nesting depth, delta, height after, size after)
+    /// open frames: (name, index, height before, sizes of the top three populations before (-1 = absent))
+    open: Vec<(String, usize, i64, [i64; 3])>,
+    /// completed steps in completion order: (name, height delta, size after, top three sizes before)
     steps: Vec<String>,
     /// loop passes: (loop nesting depth, height before, height after, size after)
     pass_open: Vec<i64>,
@@ -34,6 +34,16 @@ fn hs<P: HProblem>(state: &State<P>) -> (i64, i64) {
         Ok(p) => (p.len() as i64, p.get_current().map(|c| c.len() as i64).unwrap_or(-1)),
         Err(_) => (-1, -1),
     }
+}
+/// Sizes of the three top-most populations (top first), -1 where the stack is shallower.
+fn top3<P: HProblem>(state: &State<P>) -> [i64; 3] {
+    let mut r = [-1i64; 3];
+    if let Ok(p) = state.try_borrow::<Populations<P>>() {
+        for d in 0..3.min(p.len()) {
+            r[d] = p.peek(d).len() as i64;
+        }
+    }
+    r
 }
 impl Visitor for Rec {
     fn step<P: HProblem>(&mut self, phase: Phase, name: &'static str, index: usize, state: &State<P>, _p: &P) {
@@ -53,20 +63,20 @@ impl Visitor for Rec {
             return;
         }
         match phase {
-            Phase::Before => self.open.push((n, index, h)),
+            Phase::Before => self.open.push((n, index, h, top3(state))),
             Phase::After => {
-                if let Some((bn, _bi, hb)) = self.open.pop() {
+                if let Some((bn, _bi, hb, b3)) = self.open.pop() {
                     self.n_steps += 1;
                     if self.steps.len() < 600 {
-                        self.steps.push(format!("({} {} {})", bn, h - hb, sz));
+                        self.steps.push(format!("({} {} {} {} {} {})", bn, h - hb, sz, b3[0], b3[1], b3[2]));
                     }
                 }
             }
         }
     }
     fn done<P: HProblem>(&mut self, _o: &Outcome, state: Option<&State<P>>, _p: &P) {
-        self.failed_in = self.open.iter().rev().map(|(n, _, _)| n.clone()).find(|n| !["Block", "Loop", "Branch", "Scope"].contains(&n.as_str()))
-            .or_else(|| self.open.last().map(|(n, _, _)| n.clone()));
+        self.failed_in = self.open.iter().rev().map(|(n, _, _, _)| n.clone()).find(|n| !["Block", "Loop", "Branch", "Scope"].contains(&n.as_str()))
+            .or_else(|| self.open.last().map(|(n, _, _, _)| n.clone()));
         if let Some(s) = state {
             self.iters = s.try_get_value::<mahf::state::common::Iterations>().ok();
             let (h, sz) = hs(s);
@@ -125,6 +135,140 @@ impl Visitor for Audit {
     fn done<P: HProblem>(&mut self, _o: &Outcome, _s: Option<&State<P>>, _p: &P) {}
 }
 
+
+// ---------------------------------------------------------------------------------------------
+// Size probes: K-validation of the size transformers (`Tpl.opOf`) at component level. Each case runs
+// ONE real component on a prepared stack of evaluated populations of the given sizes (odd sizes,
+// empty populations, unequal operands — combinations the template runs rarely produce) and reports
+// the sizes afterwards. The component travels as its own serialised form, so the driver extracts the
+// size parameters with the same translator that reads the template trees.
+//   input  `(sizeprobe COMPONENT seed (sizes top second third))`
+//   output `((res ok|err|panic) (sizes …))`
+// ---------------------------------------------------------------------------------------------
+use hcommon::problems::Sphere;
+use mahf::components::{mutation, recombination, replacement, selection, utils};
+use mahf::{Component, Individual, Random, SingleObjective};
+
+type BC = Box<dyn Component<Sphere>>;
+
+/// The probed components, by index (the index is not part of the case: the serialised form is).
+fn probe_components() -> Vec<BC> {
+    let mut v: Vec<BC> = Vec::new();
+    v.push(selection::All::new());
+    v.push(selection::None::new());
+    for k in [0u32, 1, 3, 4] {
+        v.push(selection::CloneSingle::new(k));
+        v.push(selection::FullyRandom::new(k));
+        v.push(selection::RandomWithoutRepetition::new(k));
+        v.push(selection::RouletteWheel::new(k, 1.0));
+        v.push(selection::StochasticUniversalSampling::new(k, 1.0));
+        v.push(selection::Tournament::new(k, 2));
+        v.push(selection::LinearRank::new(k));
+        if let Ok(c) = selection::ExponentialRank::new(k, 0.5) { v.push(c); }
+        v.push(replacement::MuPlusLambda::new(k));
+        v.push(replacement::Generational::new(k));
+        v.push(replacement::RandomReplacement::new(k));
+    }
+    for y in [1u32, 2] {
+        if let Ok(c) = selection::de::DERand::new(y) { v.push(c); }
+        if let Ok(c) = selection::de::DEBest::new(y) { v.push(c); }
+        if let Ok(c) = selection::de::DECurrentToBest::new(y) { v.push(c); }
+        if let Ok(c) = mutation::de::DEMutation::new(y, 0.5) { v.push(c); }
+    }
+    for (mn, mx) in [(0u32, 3u32), (1, 1), (2, 5), (0, 0)] {
+        v.push(selection::iwo::DeterministicFitnessProportional::new(mn, mx));
+    }
+    v.push(replacement::DiscardOffspring::new());
+    v.push(replacement::Merge::new());
+    v.push(replacement::KeepBetterAtIndex::new());
+    v.push(replacement::sa::ExponentialAnnealingAcceptance::new(1.0));
+    for pc in [0.0f64, 0.5, 1.0] {
+        for both in [true, false] {
+            v.push(recombination::UniformCrossover::new(pc, both));
+            v.push(recombination::NPointCrossover::new(1, pc, both));
+            v.push(recombination::ArithmeticCrossover::new(pc, both));
+        }
+    }
+    v.push(recombination::de::DEBinomialCrossover::new(0.5));
+    v.push(recombination::de::DEExponentialCrossover::new(0.5));
+    v.push(utils::populations::DuplicatePopulation::new());
+    v.push(utils::populations::ClearPopulation::new());
+    v.push(utils::populations::InterleavePopulations::new());
+    v.push(mutation::NormalMutation::new(0.1, 0.5));
+    v
+}
+
+fn probe_pop(rng: &mut Sm, n: usize, problem: &Sphere) -> Vec<Individual<Sphere>> {
+    (0..n).map(|_| {
+        let x: Vec<f64> = (0..problem.dim).map(|_| problem.lo + (rng.next() % 10_000) as f64 / 10_000.0 * (problem.hi - problem.lo)).collect();
+        let o = problem.f(&x) + 0.25;
+        Individual::new(x, SingleObjective::try_from(o).unwrap())
+    }).collect()
+}
+
+fn run_probe(c: &BC, seed: u64, sizes: &[usize]) -> String {
+    let problem = Sphere::new(3, -2.0, 2.0, 0.0);
+    let mut rng = Sm::new(seed ^ 0x517E);
+    let mut state: State<Sphere> = State::new();
+    state.insert(Populations::<Sphere>::new());
+    state.insert(Random::new(seed));
+    for &n in sizes.iter().rev() {
+        let pop = probe_pop(&mut rng, n, &problem);
+        state.populations_mut().push(pop);
+    }
+    let res = match catch(|| c.init(&problem, &mut state).and_then(|_| c.execute(&problem, &mut state))) {
+        Some(Ok(())) => "ok",
+        Some(Err(_)) => "err",
+        None => "panic",
+    };
+    let after: Vec<String> = match (res, state.try_borrow::<Populations<Sphere>>()) {
+        ("ok", Ok(p)) => (0..p.len()).map(|d| p.peek(d).len().to_string()).collect(),
+        _ => vec![],
+    };
+    list([format!("(res {})", res), tagged("sizes", after)])
+}
+
+fn probe_case(input: &Sx) -> String {
+    // the component is looked up by its serialised form
+    let (_, a) = input.head().unwrap();
+    let want = a[0].render();
+    let seed = a[1].nat().unwrap();
+    let sizes: Vec<usize> = a[2].head().unwrap().1.iter().map(|x| x.nat().unwrap() as usize).collect();
+    for c in probe_components() {
+        if sertree::to_sexp(c.as_ref()).map(|s| Sx::parse(&s).map(|x| x.render()) == Some(want.clone())).unwrap_or(false) {
+            return run_probe(&c, seed, &sizes);
+        }
+    }
+    "((res unknown-component) (sizes))".to_string()
+}
+
+fn emit_probes(out: &mut Out, seed: u64, thorough: bool) {
+    let mut rng = Sm::new(seed ^ 0x51AE);
+    let stacks: Vec<Vec<usize>> = {
+        let mut v: Vec<Vec<usize>> = vec![vec![], vec![0], vec![1], vec![2], vec![3], vec![5], vec![6], vec![7], vec![9], vec![15]];
+        for a in [0usize, 1, 2, 3, 4, 5, 6, 9] {
+            for b in [0usize, 1, 3, 4, 6] {
+                v.push(vec![a, b]);
+            }
+            v.push(vec![a, a, 2]);
+        }
+        v
+    };
+    let reps = if thorough { 4 } else { 1 };
+    for c in probe_components() {
+        let ser = match sertree::to_sexp(c.as_ref()) { Ok(s) => s, Err(_) => continue };
+        let site = format!("size:{}", ser.split(|ch: char| ch == ' ' || ch == ')').nth(1).unwrap_or("?"));
+        for st in &stacks {
+            for _ in 0..reps {
+                let s = rng.next() % 1_000_000;
+                let input = format!("(sizeprobe {} {} (sizes {}))", ser, s, st.iter().map(|n| n.to_string()).collect::<Vec<_>>().join(" "));
+                let sx = Sx::parse(&input).unwrap();
+                out.case(&site, &input, &probe_case(&sx));
+            }
+        }
+    }
+}
+
 struct Tree;
 impl ConfigUser for Tree {
     type Out = String;
@@ -136,6 +280,9 @@ impl ConfigUser for Tree {
 fn run_case(input: &Sx) -> String {
     // (run NAME variant instance iters seed (tree …)) — the tree is informational for the model
     let (head, a) = input.head().unwrap();
+    if head == "sizeprobe" {
+        return probe_case(input);
+    }
     if head == "audit" {
         let name = a[0].atom().unwrap();
         let (variant, instance, iters, seed) = (a[1].nat().unwrap() as u32, a[2].nat().unwrap() as u32, a[3].nat().unwrap() as u32, a[4].nat().unwrap());
@@ -190,6 +337,16 @@ fn main() {
         }
         return;
     }
+    if std::env::args().any(|x| x == "--prescribed") {
+        // the bounds the per-template size theorems are stated with: `(prescribed NAME variant lo hi|inf)`
+        for name in TEMPLATES {
+            for v in 0..N_VARIANTS {
+                let (lo, hi) = prescribed_size(name, v);
+                println!("(prescribed {} {} {} {})", name, v, lo, if hi == usize::MAX { "inf".to_string() } else { hi.to_string() });
+            }
+        }
+        return;
+    }
     if std::env::args().any(|x| x == "--audit") {
         // K-only stream for the C06/C07 template analyses
         let mut rng = Sm::new(a.seed ^ 0xA0D17);
@@ -228,5 +385,6 @@ fn main() {
             }
         }
     }
+    emit_probes(&mut out, a.seed, a.thorough);
     out.finish();
 }
